@@ -186,9 +186,12 @@ def g_patch(rng):
     ops = []
     for _ in range(rng.range(0, 3)):
         op = rng.choice([b"add", b"remove", b"replace", b"move", b"copy", b"test", b"increment", b"add_create", b"swap", b"bogus"])
-        o = b'{"op":' + jstr(op) + b',"path":' + jstr(g_pointer_for(rng))
+        path, frm = g_pointer_for(rng), g_pointer_for(rng)
+        if op == b"swap" and (path.startswith(frm) or frm.startswith(path)):
+            frm = b"/zz"   # swapping a node with its own ancestor builds a cyclic tree: known, unfixed C15 finding (notes/jpatch.md)
+        o = b'{"op":' + jstr(op) + b',"path":' + jstr(path)
         if op in (b"move", b"copy", b"swap") or rng.chance(1, 8):
-            o += b',"from":' + jstr(g_pointer_for(rng))
+            o += b',"from":' + jstr(frm)
         if op in (b"add", b"replace", b"test", b"increment", b"add_create") or rng.chance(1, 8):
             o += b',"value":' + rng.choice([b"1", b'"v"', b"[7]", b'{"q":1}', b"null", b"1.5", b"true"])
         ops.append(o + b"}")
@@ -302,6 +305,25 @@ def g_regex_bad(rng):
                        base + b"{99999999999}", b"[^a]$", b"[^a]*$", b"[^\\", b"\\", b"$", b"^", b"^$", b".$", b"[^x]", b"a[^x]$", mutate(rng, base)])
 
 
+def g_regex_big(rng):
+    """size / recursion bounds of parser, compiler and VM"""
+    k = rng.below(7)
+    if k == 0:
+        return b"a" * rng.choice([2047, 2048, 2049, 5000, 20000])
+    if k == 1:
+        d = rng.choice([500, 1023, 1024, 1025, 3000, 20000]); return b"(" * d + b"a" + b")" * d
+    if k == 2:
+        return b"a|" * rng.choice([500, 1023, 1024, 5000, 20000]) + b"b"
+    if k == 3:
+        return rng.choice([b"(a{1000}){1000}", b"((a{1000}){1000}){1000}", b"(((a{1000}){1000}){1000}){1000}", b"a{100000}", b"a{100001}",
+                           b"a{0,4090}", b"a{0,4100}", b"(a{90}){90}", b"a{4000,}", b"a{2147483647}", b"a{2147483648}", b"a{1,2147483647}"])
+    if k == 4:
+        return b"a?" * rng.choice([100, 1000, 1024]) + b"b"
+    if k == 5:
+        return b"(a*)*" * rng.choice([10, 100, 400])
+    return b"[a-z]" * rng.choice([100, 400, 409, 410, 1000])
+
+
 def g_text(rng):
     return bytes(rng.choice(b"aabbcx0.") for _ in range(rng.weighted([(0, 2), (1, 3), (3, 4), (8, 2), (30, 1)])))
 
@@ -352,6 +374,7 @@ def gen(rng, n):
         pat = g_regex(rng) if rng.chance(2, 3) else g_regex_bad(rng)
         L.append("re %s %s" % (hx(pat.replace(b"\x00", b"")), hx(g_text(rng))))
     for _ in range(max(2, n // 40)):
+        L.append("re %s %s" % (hx(g_regex_big(rng)), hx(rng.choice([b"", b"a", b"a" * 40, b"ab" * 20]))))
         L.append("json " + hx(g_nest(rng)))
         L.append("js " + hx(g_nest(rng)))
     return L
@@ -492,12 +515,14 @@ def check(run):
         ansB[i] = ansBp[pos]
     findB = [(perm[pos], k, e) for pos, k, e in findBp]
 
-    # model side
+    # model side: once for the fresh state (errno 0), once with the errno the history run pre-set
     midx = [i for i, c in enumerate(cmds) if c.split()[0] in MODELLED]
-    rc, mout, merr = vlib.run_lines(model, "\n".join([cmds[i] for i in midx] + ["facts"]) + "\n", timeout=600)
+    rc, mout, merr = vlib.run_lines(model, "\n".join([cmds[i] for i in midx] + ["%s @%d" % (cmds[i], eb[i]) for i in midx] + ["facts"]) + "\n",
+                                    timeout=600)
     if rc != 0:
         run.broken.append("T2 model driver exited %d: %s" % (rc, merr[-400:]))
     ansM = {i: (mout[k] if k < len(mout) else "<missing>") for k, i in enumerate(midx)}
+    ansMB = {i: (mout[len(midx) + k] if len(midx) + k < len(mout) else "<missing>") for k, i in enumerate(midx)}
 
     # ---- oracle 1: sanitizer report / crash / timeout on the implementation = violation (replay = the query line)
     best = {}
@@ -533,32 +558,35 @@ def check(run):
     # variant Gen/Facts.v selected: OOB = access outside the buffer (=> ASan report), UNINIT = the answer shows a cell that
     # was never written (=> answer differs between heap fills, or a wild pointer), UB = signed overflow (=> UBSan report),
     # F? = the branch hands over to iwstrtod, which is not modelled (=> F <end> ... or E)
-    keys_of = {}
-    for i, key, _ in findA + findB:
-        keys_of.setdefault(i, set()).add(key)
+    def side(finds):
+        d = {}
+        for i, key, _ in finds:
+            d.setdefault(i, set()).add(key)
+        return d
+    keysA, keysB = side(findA), side(findB)
+    keys_of = {i: keysA.get(i, set()) | keysB.get(i, set()) for i in set(keysA) | set(keysB)}
+
+    def agrees(m, a, ks, other):
+        if m.startswith("OOB"):
+            return any(k.startswith("asan:") for k in ks)
+        if m == "UNINIT":
+            return bool(ks) or (a is not None and other is not None and a != other)
+        if m == "UB":
+            return any(k.startswith("ubsan:") for k in ks)
+        if m == "F?":
+            return bool(ks) or (a is not None and (a.startswith("F ") or a == "E"))
+        return (not ks) and a == m
     mism = []
     for i in midx:
-        m, a, bq = ansM[i], ansA[i], ansB[i]
-        ks = keys_of.get(i, set())
-        if m.startswith("OOB"):
-            ok = any(k.startswith("asan:") for k in ks)
-        elif m == "UNINIT":
-            ok = bool(ks) or (a is not None and bq is not None and a != bq)
-        elif m == "UB":
-            ok = any(k.startswith("ubsan:") for k in ks)
-        elif m == "F?":
-            ok = bool(ks) or (a is not None and (a.startswith("F ") or a == "E"))
-        else:
-            ok = (not ks) and a == m
-        if not ok:
+        if not (agrees(ansM[i], ansA[i], keysA.get(i, set()), ansB[i]) and agrees(ansMB[i], ansB[i], keysB.get(i, set()), ansA[i])):
             mism.append(i)
     run.cov["traces_validated_against_impl"] = len(midx) - len(mism)
-    run.cov["model_variant"] = mout[-2] if len(mout) >= 2 and "=" in mout[-2] else ""
+    run.cov["model_variant"] = mout[2 * len(midx)] if len(mout) > 2 * len(midx) else ""
     if mism:
         i = mism[0]
         if os.environ.get("VERIF_DEBUG"):
             for j in mism[:40]:
-                print("MISMATCH `%s` impl=`%s`/`%s` %s model=`%s`" % (cmds[j], ansA[j], ansB[j], sorted(keys_of.get(j, [])), ansM[j]))
+                print("MISMATCH `%s` impl=`%s`/`%s` %s model=`%s`/`%s`" % (cmds[j], ansA[j], ansB[j], sorted(keys_of.get(j, [])), ansM[j], ansMB[j]))
         run.broken.append("T2 correspondence: %d of %d modelled queries differ, first: `%s` impl=`%s` %s model=`%s`" % (
             len(mism), len(midx), cmds[i], ansA[i], sorted(keys_of.get(i, [])), ansM[i]))
 
